@@ -288,6 +288,81 @@ pub fn run(cfg: &Cfg) -> (Log, Meta) {
     }));
     log.count("concurrent.threads", crate::util::threads() as u64);
   }
+  // ---- the getters on days and hours hand the right pillars to the tables: at seeded instants (a quarter of
+  // them at 23:xx, where the hour belongs to the next day's pillar) the lists of LunarHour / SixtyCycleHour /
+  // LunarDay / SixtyCycleDay equal the table cell of the pillars the harness derives itself
+  {
+    use crate::api::{sd_of_dn, st_of_abs};
+    use crate::model::cal::{self, cal};
+    let nw = cfg.tier.pick(6_000usize, 100_000usize);
+    let t = crate::model::terms::terms();
+    if t.errors.is_empty() && t.monotonic() {
+      log.merge(crate::util::par_range(nw, 50, |i, l| {
+        let mut rng = crate::util::Rng::new(crate::util::mix(cfg.seed, i as u64 ^ 0x3C18));
+        let c = cal();
+        let n = rng.range(c.dn(30, 1, 1), c.dn(9990, 1, 1));
+        if cal::reform_era_near(n) {
+          return;
+        }
+        let sod = if i % 4 == 0 { rng.range(23 * 3600, 86399) } else { rng.range(0, 86399) };
+        let a = n * 86400 + sod;
+        if crate::model::pillars::window_has_jie(a - 2, a + 2) {
+          return;
+        }
+        let p = match crate::model::pillars::four_pillars(a, false) {
+          Some(p) => p,
+          None => return,
+        };
+        // day-level month pillar: the term governing the civil day
+        let g = match t.governing_day(n) {
+          Some(g) => t.v[g],
+          None => return,
+        };
+        let (_, _, _, day_mp) = crate::monitor::c08::pillars_of(&g);
+        let dp = cal::day_pillar(n);
+        let key = crate::api::fmt_abs(a);
+        l.ev(1);
+        l.count("wrappers.instants", 1);
+        if sod >= 23 * 3600 {
+          l.count("wrappers.late_zi_instants", 1);
+        }
+        let r = guard(|| {
+          let st = st_of_abs(a);
+          let lh = st.get_lunar_hour();
+          let sh = st.get_sixty_cycle_hour();
+          let (dayp, hourp) = (SixtyCycle::from_index(p[2] as isize), SixtyCycle::from_index(p[3] as isize));
+          let want_h = (taboo_idx(&Taboo::get_hour_recommends(dayp.clone(), hourp.clone())), taboo_idx(&Taboo::get_hour_avoids(dayp, hourp)));
+          let got_lh = (taboo_idx(&lh.get_recommends()), taboo_idx(&lh.get_avoids()));
+          let got_sh = (taboo_idx(&sh.get_recommends()), taboo_idx(&sh.get_avoids()));
+          let sd = sd_of_dn(n);
+          let (ld, scd) = (sd.get_lunar_day(), sd.get_sixty_cycle_day());
+          let (monthp, dayp0) = (SixtyCycle::from_index(day_mp as isize), SixtyCycle::from_index(dp as isize));
+          let want_d = (god_idx(&God::get_day_gods(monthp.clone(), dayp0.clone())), taboo_idx(&Taboo::get_day_recommends(monthp.clone(), dayp0.clone())), taboo_idx(&Taboo::get_day_avoids(monthp, dayp0)));
+          let got_ld = (god_idx(&ld.get_gods()), taboo_idx(&ld.get_recommends()), taboo_idx(&ld.get_avoids()));
+          let got_scd = (god_idx(&scd.get_gods()), taboo_idx(&scd.get_recommends()), taboo_idx(&scd.get_avoids()));
+          (want_h, got_lh, got_sh, want_d, got_ld, got_scd)
+        });
+        match r {
+          Ok((want_h, got_lh, got_sh, want_d, got_ld, got_scd)) => {
+            if got_lh != want_h || got_sh != want_h {
+              l.violate(format!("C18/hour-wrapper/{}", key), "LunarHour / SixtyCycleHour get_recommends / get_avoids", key.clone(), format!("lunar hour {:?} / sexagenary hour {:?}", got_lh, got_sh), format!("{:?} (cell of day pillar {} x hour pillar {})", want_h, pillar_name(p[2]), pillar_name(p[3])));
+            }
+            if let Some(x) = got_lh.0.iter().find(|x| got_lh.1.contains(x)) {
+              l.violate(format!("C18/hour-wrapper-recommend-and-avoid/{}", key), "LunarHour lists", key.clone(), format!("activity {} both recommended and avoided", x), "disjoint".into());
+            }
+            if got_ld != want_d || got_scd != want_d {
+              l.violate(format!("C18/day-wrapper/{}", key), "LunarDay / SixtyCycleDay get_gods / get_recommends / get_avoids", key.clone(), format!("lunar day {:?} / sexagenary day {:?}", got_ld, got_scd), format!("{:?} (cell of month pillar {} x day pillar {})", want_d, pillar_name(day_mp), pillar_name(dp)));
+            }
+          }
+          Err(msg) => l.violate(format!("C18/wrapper-panic/{}", key), "almanac getters on days and hours", key.clone(), format!("panic: {}", msg), "lists".into()),
+        }
+      }));
+      log.floor("wrappers.instants", cfg.tier.pick(4_000, 80_000));
+      log.floor("wrappers.late_zi_instants", cfg.tier.pick(1_000, 20_000));
+    } else {
+      log.harness_error("term list unusable as an oracle (see C06)");
+    }
+  }
   // ---- spirits: luck class = list split at 60
   for i in 0..151i64 {
     log.ev(1);
@@ -362,7 +437,7 @@ pub fn run(cfg: &Cfg) -> (Log, Meta) {
   log.floor("raw.god_entries", 3_000);
   log.floor("raw.taboo_entries", 10_000);
   let meta = Meta {
-    rule: "finite domain enumerated completely: 12 x 60 (month branch, day pillar) cells (spirits, recommended, avoided: decode, >= 1 spirit, names in their lists, recommended and avoided disjoint, API == independent parse of the raw DAY_GODS / DAY_TABOO tables read through the guarded hook), 60 x 12 (day pillar, hour branch) cells likewise against HOUR_TABOO, raw tables well-formed (60 records per line, one record per day index, even hex length, spirit index < 151, activity index < 141), 151 spirits classed by the list split at 60, then the cells again in drawn order on all worker threads at once (runs of 8 queries around one cell: same / adjacent / +10 / +12 / +30 pillars, day and hour tables mixed, recommended-first, avoided-first or only one list) against the same independent parse; kitchen-god attributes of every lunar year -1..9999 equal to the step counts from the New-Year day's stem/branch recomputed from the day number. Non-trivial = every table cell.".into(),
+    rule: "finite domain enumerated completely: 12 x 60 (month branch, day pillar) cells (spirits, recommended, avoided: decode, >= 1 spirit, names in their lists, recommended and avoided disjoint, API == independent parse of the raw DAY_GODS / DAY_TABOO tables read through the guarded hook), 60 x 12 (day pillar, hour branch) cells likewise against HOUR_TABOO, raw tables well-formed (60 records per line, one record per day index, even hex length, spirit index < 151, activity index < 141), 151 spirits classed by the list split at 60, then the cells again in drawn order on all worker threads at once (runs of 8 queries around one cell: same / adjacent / +10 / +12 / +30 pillars, day and hour tables mixed, recommended-first, avoided-first or only one list) against the same independent parse; the getters of LunarHour / SixtyCycleHour / LunarDay / SixtyCycleDay at seeded instants (a quarter at 23:xx) return the cell of the pillars the harness derives itself (day pillar (N+49) mod 60 rolled at 23:00, Five-Rats hour pillar, month pillar of the governing Jie); kitchen-god attributes of every lunar year -1..9999 equal to the step counts from the New-Year day's stem/branch recomputed from the day number. Non-trivial = every table cell.".into(),
     assumptions: vec!["New-Year day of a lunar year = first day of month 1 as reported by the library (C03/C05); pillar by (N+49) mod 60".into()],
     exhaustive: true,
   };
